@@ -10,6 +10,7 @@ package main
 // Both mention only xs and what F mentions besides the element, so they survive the return of a helper function.
 
 import (
+	"fmt"
 	"go/ast"
 	"go/types"
 
@@ -71,6 +72,38 @@ func deriveFacts(st *fstate, fs []*Term) []*Term {
 				add(fact("member", x, xs))
 			}
 		case "eq", "neq":
+			// a length that differs from 0..n is greater than n
+			if f.S == "neq" {
+				for i := 0; i < 2; i++ {
+					l, c := f.A[i], f.A[1-i]
+					if l.K != "call" || l.S != "len" || c.K != "const" {
+						continue
+					}
+					has := func(k int) bool {
+						kc := mk("const", fmt.Sprint(k))
+						if st.has(fact("neq", l, kc)) || st.has(fact("neq", kc, l)) {
+							return true
+						}
+						for _, g := range fs {
+							if g.S == "neq" && len(g.A) == 2 && ((g.A[0].Key() == l.Key() && g.A[1].Key() == kc.Key()) || (g.A[1].Key() == l.Key() && g.A[0].Key() == kc.Key())) {
+								return true
+							}
+						}
+						return false
+					}
+					for n := 0; n <= 3; n++ {
+						all := true
+						for k := 0; k <= n; k++ {
+							if !has(k) {
+								all = false
+							}
+						}
+						if all {
+							add(fact("lt", mk("const", fmt.Sprint(n)), l))
+						}
+					}
+				}
+			}
 			for i := 0; i < 2; i++ {
 				if xs, x, ok := isIndexCall(f.A[i]); ok && isConstS(f.A[1-i], "-1") {
 					if f.S == "eq" {
@@ -100,7 +133,7 @@ func deriveFacts(st *fstate, fs []*Term) []*Term {
 		}
 		for _, f := range append(append([]*Term{}, fs...), out[:n]...) {
 			switch f.S {
-			case "def", "orig", "inloop", "called", "some", "all":
+			case "def", "defx", "orig", "inloop", "called", "some", "all":
 				continue
 			}
 			if !mentionsTerm(f, v) {
@@ -213,7 +246,7 @@ func (f *e1func) updateLoopFacts(g *cfg.CFG, in []map[string]*fstate) bool {
 			if valid {
 				for _, fc := range st.facts {
 					switch fc.S {
-					case "def", "orig", "inloop", "called", "some":
+					case "def", "defx", "orig", "inloop", "called", "some":
 						continue
 					}
 					t := fc
